@@ -6,6 +6,7 @@ import random
 import subprocess
 import time
 
+import gen
 import vlib
 from vlib import log, ToolError, WORK
 
@@ -143,7 +144,7 @@ def forest_check(prop, tier, seed):
     # 1. L1 model checking: the specification's own invariants
     cfgname = write_cfg(f"gen_{prop}_mc.cfg", FOREST_CFG.format(
         maxnode=3 if quick else 4, names="Names1" if quick else "Names2", texts="TextsXS", maxtext=2, dump="FALSE",
-        invs="Valid RefusalsAreStutters Total RiwIdempotent", props="PROPERTY StableIds"))
+        invs="Valid RefusalsAreStutters Total RiwIdempotent FrameHolds", props="PROPERTY StableIds"))
     r_mc = mc("MCForest.tla", cfgname, workers=12, timeout=3000, tag=prop + "_mc", xmx="16g")
     os.remove(os.path.join(vlib.SPEC, cfgname))
     mcs.append(r_mc)
@@ -176,15 +177,27 @@ def forest_check(prop, tier, seed):
         if extra == "ws":
             gstates, r_g = dump_states("MCWs.tla", "SPECIFICATION Spec\nCONSTANT Dump = TRUE\nINVARIANTS ValidInput RiwLaws DumpState\nCHECK_DEADLOCK FALSE\n", prop + "_ws")
         else:
-            gstates, r_g = dump_states("MCScope.tla", SCOPE_CFG.format(dump="TRUE"), prop + "_scope")
+            gstates, r_g = dump_states("MCScope.tla", scope_cfg(prop), prop + "_scope")
             # and the three-level layouts (default and prefixed declarations of one namespace down a path)
-            g3, r_g3 = dump_states("MCScope3.tla", "SPECIFICATION Spec\nCONSTANT Dump = TRUE\nINVARIANTS ValidLayout ResolutionIsFunction DumpState\nCHECK_DEADLOCK FALSE\n", prop + "_scope3")
+            g3, r_g3 = dump_states("MCScope3.tla", SCOPE3_CFG.format(l2=L2NS.get(prop, "")), prop + "_scope3")
             mcs.append(r_g3)
             rnd.shuffle(g3)
-            gstates = gstates[: (800 if quick else 24000)] + g3[: (900 if quick else 4000)]
+            # and the four-level chains over two namespaces under two prefixes (a declaration redundant only through a
+            # binding further up under another prefix, the same prefix rebound in between)
+            g4, r_g4 = dump_states("MCScope4.tla", SCOPE3_CFG.format(l2=L2NS.get(prop, "")), prop + "_scope4")
+            mcs.append(r_g4)
+            rnd.shuffle(g4)
+            rnd.shuffle(gstates)
+            gstates = gstates[: (600 if quick else 32000)] + g3[: (700 if quick else 11000)] + g4[: (600 if quick else 5000)]
         mcs.append(r_g)
         rnd.shuffle(gstates)
-        gchosen = gstates[: (1200 if quick else 30000)]
+        gchosen = gstates[: (1900 if quick else 50000)]
+        if extra != "ws":
+            # deeper and wider declaration layouts than the enumerated ones: random namespace-rich chains and bushes
+            # (two namespaces, three prefixes, declarations shadowed several levels down), the calls on every node
+            for k in range(150 if quick else 3000):
+                f, roots = gen.random_forest(rnd, rnd.choice([5, 8, 12, 16]), shape=rnd.choice(["chain", "mixed", "chain"]), nsrich=True, trees=1)
+                gchosen.append(f.state())
         sp2 = os.path.join(d, "gstates.ndjson")
         with open(sp2, "w") as f:
             for st in gchosen:
@@ -245,7 +258,7 @@ def forest_check(prop, tier, seed):
         "distinct_nontrivial": len(classes),
         "rule": "events are public calls executed on the real crate and judged by TLC against L1; distinct = distinct (operation, result, kinds of the node arguments, structural relation between the two node arguments) classes observed",
         "samples": samples, "exhaustive": False,
-        "l1_model": {"maxnode": 3 if quick else 4, "distinct_states": r_mc["distinct"], "invariants": ["Valid", "RefusalsAreStutters", "Total", "RiwIdempotent", "StableIds"]},
+        "l1_model": {"maxnode": 3 if quick else 4, "distinct_states": r_mc["distinct"], "invariants": ["Valid", "RefusalsAreStutters", "Total", "RiwIdempotent", "FrameHolds", "StableIds"]},
         "replayed_states": nreplayed, "events": events, "drive_episodes": episodes, "drive_profile": profile or "mixed",
         "rejections_charged_to_other_properties": notes,
     }
@@ -274,9 +287,16 @@ def dump_states(module, cfgtext, tag, workers=8):
 
 SCOPE_CFG = """SPECIFICATION Spec
 CONSTANT Dump = {dump}
-INVARIANTS ValidLayout ScopeDefsAgree ResolutionIsFunction UsableIffSpellable DumpState
+INVARIANTS ValidLayout ScopeDefsAgree ResolutionIsFunction UsableIffSpellable DumpState {l2}
 CHECK_DEADLOCK FALSE
 """
+SCOPE3_CFG = "SPECIFICATION Spec\nCONSTANT Dump = TRUE\nINVARIANTS ValidLayout ResolutionIsFunction DumpState {l2}\nCHECK_DEADLOCK FALSE\n"
+# L2 transcriptions of the crate's namespace machinery (XotNsL2) compared with L1 on every layout, by property
+L2NS = {"C09": "L2Scope L2Unres", "C10": "L2Ser L2CmpInv", "C15": "L2DedupInv", "C12": "L2Scope L2Unres", "C01": "L2Ser", "C14": "L2Ser"}
+
+
+def scope_cfg(prop):
+    return SCOPE_CFG.format(dump="TRUE", l2=L2NS.get(prop, ""))
 
 TREE_CFG = """SPECIFICATION Spec
 CONSTANTS
@@ -293,7 +313,7 @@ CHECK_DEADLOCK FALSE
 """
 
 PFX = ["", "p", "q", "xml", "zz"]
-URIS = ["", "u1", "u2", "u3"]
+URIS = ["", "u1", "u2", "u3", "http://www.w3.org/XML/1998/namespace"]
 IGN = [[], [["", "a"]], [["", "a"], ["", "a"]], [["u1", "b"], ["", "a"]], [["", "c"], ["", "b"], ["", "c"], ["u2", "a"]]]
 
 
@@ -327,10 +347,15 @@ def observer_check(prop, tier, seed):
             jobs.append({"st": st, "what": what, "pfx": PFX, "uris": URIS, "pairs": pairs, "ign": IGN})
             nsmall += 1
     if prop == "C09":
-        layouts, r_sc = dump_states("MCScope.tla", SCOPE_CFG.format(dump="TRUE"), prop + "_scope")
+        layouts, r_sc = dump_states("MCScope.tla", scope_cfg(prop), prop + "_scope")
         mcs.append(r_sc)
         rnd.shuffle(layouts)
-        for st in layouts[: (1500 if quick else 24000)]:
+        l3, r_3 = dump_states("MCScope3.tla", SCOPE3_CFG.format(l2=L2NS.get(prop, "")), prop + "_scope3")
+        l4, r_4 = dump_states("MCScope4.tla", SCOPE3_CFG.format(l2=L2NS.get(prop, "")), prop + "_scope4")
+        mcs += [r_3, r_4]
+        rnd.shuffle(l3)
+        rnd.shuffle(l4)
+        for st in layouts[: (1100 if quick else 32000)] + l3[: (400 if quick else 11000)] + l4[: (400 if quick else 5000)]:
             jobs.append({"st": st, "what": what, "pfx": PFX, "uris": URIS, "pairs": [], "ign": []})
             nscope += 1
     # 3. code -> spec: random forests larger than TLC enumerates
@@ -521,7 +546,7 @@ def parser_jobs(prop, tier, seed):
                 if mode == "frag" and kind in ("delete-root", "second-root", "top-text", "unclosed-root", "dtd", "version-1.1", "stray-etag-top"):
                     if kind != "stray-etag-top":
                         continue
-                d = X.damage(toks, kind, rnd)
+                d = X.damage(toks, kind, rnd, mode)
                 if d is not None:
                     add(mode, d, "no", dmg=kind, encs=["utf8"] if mode == "doc" else [])
                     counts["damaged"] += 1
@@ -696,7 +721,7 @@ def ser_check(prop, tier, seed):
     # every two-level declaration layout of MCScope (default declared / redeclared / undeclared, shadowing, several prefixes
     # per namespace): only the usable ones are judged by the round trip
     if prop in ("C01", "C14"):
-        layouts, r_sc = dump_states("MCScope.tla", SCOPE_CFG.format(dump="TRUE"), prop + "_scope")
+        layouts, r_sc = dump_states("MCScope.tla", scope_cfg(prop), prop + "_scope")
         mcs.append(r_sc)
         rnd.shuffle(layouts)
         for k, st in enumerate(layouts[: (2500 if quick else 24000)]):
@@ -883,9 +908,9 @@ def html_check(prop, tier, seed):
                 if nd["ln"].lower() in ("script", "style") and nd["ns"] not in ("", "http://www.w3.org/1999/xhtml"):
                     nd["ns"] = ""
             if nd["k"] == "text":
-                nd["t"] = [rnd.choice([120, 60, 38, 62, 34, 39, 160, 32, 233]) for _ in range(rnd.randrange(1, 5))]
+                nd["t"] = [rnd.choice([120, 60, 38, 62, 34, 39, 160, 32, 233, 123, 59, 35]) for _ in range(rnd.randrange(1, 5))]
             if nd["k"] == "attr" and nd["ns"] != gen.XMLNS:
-                nd["t"] = [rnd.choice([120, 60, 38, 62, 34, 39, 160]) for _ in range(rnd.randrange(0, 4))]
+                nd["t"] = [rnd.choice([120, 60, 38, 62, 34, 39, 160, 38, 123, 59, 35]) for _ in range(rnd.randrange(0, 4))]
                 if rnd.random() < 0.2:
                     nd["ln"], nd["t"] = "checked", gen.cps(rnd.choice(["checked", "CHECKED"]))
             if nd["k"] == "pi":
